@@ -36,18 +36,23 @@ class Gen:
         self.lines.append(f'module {MODULE}')
         self.procs, self.comps, self.events = [], [], {}
         cid = 2
-        for _ in range(r.randint(1, 3)):
-            ev = self.pick(EVENT_CHOICES)
-            self.lines.append(self.cls_line(cid, 'proc', r.randint(-2, 2), ev))
-            self.procs.append(cid)
-            self.events[cid] = ev
-            cid += 1
-        for _ in range(r.randint(1, 4)):
-            ev = self.pick(EVENT_CHOICES)
-            self.lines.append(self.cls_line(cid, 'comp', 0, ev))
-            self.comps.append(cid)
-            self.events[cid] = ev
-            cid += 1
+        for kind, pool, n in (('proc', self.procs, r.randint(1, 4)), ('comp', self.comps, r.randint(1, 4))):
+            for _ in range(n):
+                # inheritance chains: a class may derive from an earlier one of its kind (processors
+                # also from a default processor); its mapping is then a superset of the base's
+                base = None
+                if pool and r.random() < 0.5:
+                    base = self.pick(pool)
+                elif kind == 'proc' and r.random() < 0.1:
+                    base = r.randint(0, 1)
+                ev = self.pick(EVENT_CHOICES)
+                inherited = self.events.get(base)
+                if inherited is not None:
+                    ev = {**inherited, **(ev or {})}
+                self.lines.append(self.cls_line(cid, kind, r.randint(-2, 2) if kind == 'proc' else 0, ev, base))
+                pool.append(cid)
+                self.events[cid] = ev
+                cid += 1
         self.cls_names = {}
         self.obj_names, self.bad_obj_names, self.str_names = [], [], []
         self.lines.append(f'name {MODULE} obj 0 copy=0')
@@ -78,9 +83,9 @@ class Gen:
             self.str_names.append(f'{MODULE}.s{k}')
 
     @staticmethod
-    def cls_line(cid, kind, prio, ev):
+    def cls_line(cid, kind, prio, ev, base=None):
         evs = 'none' if ev is None else ','.join(f'{k}:{v}' for k, v in ev.items())
-        return f'cls {cid} {kind} prio={prio} ev={evs}'
+        return f'cls {cid} {kind} prio={prio} ev={evs}' + ('' if base is None else f' base={base}')
 
     def tree(self, with_world):
         r = self.rng
@@ -220,9 +225,10 @@ class Gen:
         # descriptions that are not well formed (replacement / merging in World) are drawn now and then
         ill = not clean and r.random() < 0.4
         used = set()
-        for _ in range(r.choice([0, 1, 1, 2, 3])):
+        for _ in range(r.choice([0, 1, 1, 2, 3, 4, 5])):
             c = self.pick(self.procs)
-            if c in used and not ill:
+            # the same exact type twice (the later one replaces the earlier one) now and then
+            if c in used and not ill and r.random() < 0.7:
                 continue
             used.add(c)
             self.lines.append(f'proc {enc(self.pick(self.cls_names[c]))} {self.args_tokens(clean)}')
@@ -248,6 +254,22 @@ class Gen:
                 comps.insert(r.randint(0, len(comps)), self.pick(plain))
             for c in comps:
                 self.lines.append(f'comp {enc(self.pick(self.cls_names[c]))} {self.args_tokens(clean)}')
+
+    def steps(self):
+        """further loads of the same file against the same tree, with handles cleared / replaced"""
+        r = self.rng
+        hid = 100
+        paths = dict((p, None) for p in self.handle_paths)
+        hids = [int(ln.split()[3]) for ln in self.lines if ln.startswith('tree ') and ln.split()[2] == 'handle']
+        for _ in range(r.randint(1, 3)):
+            for _ in range(r.randint(0, 3)):
+                if hids and r.random() < 0.6:
+                    self.lines.append(f'step clear {self.pick(hids)}')
+                elif paths:
+                    self.lines.append(f'step replace {enc(self.pick(list(paths)))} {hid}')
+                    hids.append(hid)
+                    hid += 1
+            self.lines.append('step ' + self.pick(['reload', 'reload', 'load2']))
 
     def rx_lines(self):
         r = self.rng
@@ -275,6 +297,8 @@ class Gen:
         self.tree(with_world=self.file_mode and self.intree)
         self.lines.append(f'mode {mode}')
         self.description(clean)
+        if self.file_mode and self.intree and r.random() < (0.35 if clean else 0.1):
+            self.steps()
         self.rx_lines()
         return self.lines
 
